@@ -75,6 +75,32 @@ def run_js(cases):
         shutil.rmtree(d, ignore_errors=True)
 
 
+def harvest_tag_words():
+    """Every word the tool's own templates, help texts and documentation present as a tag.  Whatever they say about
+    it, a word other than income / investment / transfer is an ORDINARY tag for both classifiers."""
+    words = []
+    roots = [os.path.join(core.repo_src(), 'tally'), os.path.join(os.path.dirname(core.repo_src()), 'docs')]
+    for root in roots:
+        for dp, _, fns in os.walk(root):
+            for fn in sorted(fns):
+                if not fn.endswith(('.py', '.md', '.rules', '.txt', '.js')):
+                    continue
+                try:
+                    text = open(os.path.join(dp, fn), encoding='utf-8', errors='replace').read()
+                except OSError:
+                    continue
+                for m in re.finditer(r'(?m)^[#\s]*tags:[ \t]*([A-Za-z_][A-Za-z0-9_, \t-]*)$', text):
+                    words += [w.strip() for w in m.group(1).split(',')]
+                sec = re.search(r'Special Tags(.*?)(?:\n[^#\n]|\n#\s*Example)', text, re.S)
+                if sec:
+                    words += re.findall(r'(?m)^#\s+([a-z_]+)\s+- ', sec.group(1))
+    out = []
+    for w in words:
+        if w and re.fullmatch(r'[A-Za-z_][A-Za-z0-9_-]*', w) and w.lower() not in ('income', 'investment', 'transfer') and w not in out:
+            out.append(w)
+    return out[:24]
+
+
 def run_py(cases):
     from tally import classification as C
     out = []
@@ -172,6 +198,9 @@ def run(ck):
             # ordinary tags that merely START or END with a special word (a tag is special only as a whole)
             'income-tax', 'Transfer-Fee', 'investment.fees', 'investment property', 'wire_transfer', 'non-income', 're:investment',
             'transfer/out', 'income tax', 'INCOME-2024']
+    documented = harvest_tag_words()
+    ck.extra['documented_tag_words'] = documented
+    pool += documented + [w.upper() for w in documented[:6]]
     tcases = []
     for i in range(n):
         k = rnd.choice([0, 1, 1, 2, 3, 4])
@@ -238,7 +267,7 @@ def run(ck):
                          'browser and command line disagree: ' + bad)
     ck.extra['rule'] = ('MC: 7 amounts x 82 tag lists (every subset of the special tags x 3 letter cases x with/without an '
                         'ordinary tag x order, near misses), plus null/missing tag list and -0 variants; traces: random cents '
-                        'amounts and float amounts with tag pool incl. non-ASCII case-mapping characters. non-trivial = '
+                        'amounts and float amounts with tag pool incl. non-ASCII case-mapping characters and every word that tally presents as a tag in its templates and help. non-trivial = '
                         'non-empty tag list and non-zero amount')
     ck.exhaustive = False
 
